@@ -25,6 +25,7 @@ import GqlProofs.Validate.OverlapIds
 import GqlProofs.EndToEnd.RootKeys
 import GqlProofs.EndToEnd.ParsedSelStarts
 import GqlProofs.EndToEnd.SourceOutcome
+import GqlProofs.EndToEnd.Prelude
 /-
   C08 — validation accepts exactly what the rules allow.
 
@@ -2428,6 +2429,43 @@ theorem C08_no_invalid_request_passes_no_subscription {Ls : Nat} {srcs : List (B
     (hq : ∀ op ∈ d.ops, op.op ≠ Spec.kwSubscription)
     (hv : validate defaultRules s d = .ok []) : Spec.specValid s d = true :=
   C08_no_invalid_request_passes hsrc hps hl hprel hp (C08_subscriptionsSelectRoot_of_no_subscription s d hq) hv
+
+
+/-- **C08 for the API as it is called** — `LoadSchema(sources…)` puts the embedded prelude (BuiltIn) in
+    front of the caller's sources.  `Gen.preludeBytes` IS that text (regenerated from
+    /repo/validator/imported/prelude.graphql on every run); the parser model reads it and the result
+    declares every built-in scalar, introspection type and directive (`Prelude.prelude_checked`, one
+    kernel evaluation), so `PreludeDeclared` is no longer a hypothesis: for ANY well-formed user sources
+    that load together with the prelude, and any query text that parses, the 27 default rules report
+    nothing iff all specification predicates hold — up to the two recorded findings. -/
+theorem C08_loadSchema_default_iff_spec {Ls : Nat} {user : List (Bool × Bytes)} {sd : SchemaDoc} {s : Schema}
+    (huser : ∀ src ∈ user, Lexer.Utf8.valid src.2)
+    (hps : Parser.parseSchemas Ls ((true, Gen.preludeBytes) :: user) = .ok sd) (hl : load sd = .ok s)
+    {L : Nat} {inp : Bytes} {d : QueryDoc} (hp : Parser.parseQuery L inp = .ok d)
+    (hsel : subscriptionsSelectRoot s d = true) (hdl : defaultedLocationsHarmless s d = true) :
+    validate defaultRules s d = .ok [] ↔ Spec.specValid s d = true :=
+  C08_sources_default_iff_spec
+    (fun src h => by
+      rcases List.mem_cons.1 h with rfl | h
+      · exact Prelude.prelude_utf8
+      · exact huser src h)
+    hps hl (Prelude.sources_with_prelude_declared hps) hp hsel hdl
+
+/-- no invalid request without subscriptions passes, for schemas loaded the way `LoadSchema` loads them:
+    NO side condition left -/
+theorem C08_loadSchema_no_invalid_request_passes_no_subscription {Ls : Nat} {user : List (Bool × Bytes)} {sd : SchemaDoc} {s : Schema}
+    (huser : ∀ src ∈ user, Lexer.Utf8.valid src.2)
+    (hps : Parser.parseSchemas Ls ((true, Gen.preludeBytes) :: user) = .ok sd) (hl : load sd = .ok s)
+    {L : Nat} {inp : Bytes} {d : QueryDoc} (hp : Parser.parseQuery L inp = .ok d)
+    (hq : ∀ op ∈ d.ops, op.op ≠ Spec.kwSubscription)
+    (hv : validate defaultRules s d = .ok []) : Spec.specValid s d = true :=
+  C08_no_invalid_request_passes_no_subscription
+    (fun src h => by
+      rcases List.mem_cons.1 h with rfl | h
+      · exact Prelude.prelude_utf8
+      · exact huser src h)
+    hps hl (Prelude.sources_with_prelude_declared hps) hp hq hv
+
 
 end C08Final
 
